@@ -12,7 +12,6 @@ import (
 	"github.com/btcsuite/btcd/wire"
 	"github.com/btcsuite/btcwallet/waddrmgr"
 	"github.com/btcsuite/btcwallet/wallet"
-	"github.com/btcsuite/btcwallet/wallet/txrules"
 
 	"verif/internal/evid"
 	"verif/internal/wh"
@@ -134,7 +133,7 @@ func walletAuthoring(r *evid.Run, dir string, cs int64) {
 					fail("c07:wallet:outputs-changed", fmt.Sprintf("%s: output %d (%d sat) is neither requested nor the declared change output", desc, i, o.Value))
 					return
 				}
-				if o.Value <= 0 || txrules.IsDustOutput(o, txrules.DefaultRelayFeePerKb) {
+				if o.Value <= 0 || isDust(o, defaultRelayFeePerKb) {
 					fail("c07:wallet:dust-change", fmt.Sprintf("%s: change output of %d sat is dust or zero", desc, o.Value))
 					return
 				}
@@ -148,14 +147,14 @@ func walletAuthoring(r *evid.Run, dir string, cs int64) {
 		}
 		fee := inSum - outSum
 		vsize := mempool.GetTxVirtualSize(btcutil.NewTx(tx))
-		minFee := int64(txrules.FeeForSerializeSize(rate, int(vsize)))
+		minFee := int64(feeFor(rate, int(vsize)))
 		if fee < minFee {
 			fail("c07:wallet:fee-below-real-size", fmt.Sprintf("%s: fee %d (inputs really worth %d, outputs %d) is below rate x real signed vsize %d = %d", desc, fee, inSum, outSum, vsize, minFee))
 			return
 		}
 		// generous upper bound: worst-case signature sizes (+2 vB per input), a
 		// dropped change output (+43 vB) and one dust threshold
-		maxFee := int64(txrules.FeeForSerializeSize(rate, int(vsize)+2*len(tx.TxIn)+43)) + 3*546*int64(rate)/1000 + 546
+		maxFee := int64(feeFor(rate, int(vsize)+2*len(tx.TxIn)+43)) + 3*546*int64(rate)/1000 + 546
 		if fee > maxFee {
 			fail("c07:wallet:fee-above-band", fmt.Sprintf("%s: fee %d exceeds rate x (real vsize %d + slack) + dust threshold = %d", desc, fee, vsize, maxFee))
 			return
